@@ -13,6 +13,7 @@ CONSTANTS TolPer,      \* micrometres, lattice perimeters (integers of metres)
           TolPerNm,    \* nm, perimeter agreement between two evaluations of the same polygon
           TolPosNm,    \* nm, an edge entered with the azimuth and length of the inverse problem ends at the vertex (inverse + direct error)
           TolRhumbLegNm, \* nm per rhumb leg against the defining integrals
+          RoundoffUlps,  \* "ordinary round-off of the accumulated sums" of TestEdge: units in the last place of the largest partial sum
           EvMaxArc, EvMaxLatRhumb,     \* micro-degrees: conditioning guard of the edge-versus-vertex law
           EvGeodPerNm, EvRhumbPerNm    \* 1e-4 m^2 of area per nm of vertex displacement under that guard
 VARIABLES l, verts, hows, polyline
@@ -111,7 +112,10 @@ RlOK(r) ==
      /\ r.rev[1] <= ta /\ r.rev[2] <= ta /\ r.rev[3] <= ta /\ r.rev[4] <= tp
      /\ r.shift[1] <= ta /\ r.shift[2] <= tp /\ r.shift[3] <= ta /\ r.shift[4] <= tp
      /\ r.diag[1] <= ta /\ r.diag[2] <= tp
-     /\ r.test[1] <= ta /\ r.test[2] <= tp /\ r.test[3] = 1 /\ r.test[4] <= ta /\ r.test[5] <= tp
+     \* TestEdge keeps its tentative sum in a plain double: "to within ordinary round-off of the accumulated sums", i.e. a few
+     \* (RoundoffUlps) units in the last place of the largest partial sum, test[6], which is large for a rhumb edge that winds
+     \* many times around a pole (bound computed by the driver from the inputs only)
+     /\ r.test[1] <= ta /\ r.test[2] <= tp /\ r.test[3] = 1 /\ r.test[4] <= ta + RoundoffUlps * Min(r.test[6], 100000000) /\ r.test[5] <= tp
      \* (back ends 0, 1, 2 are compared among themselves; 3 with 4 and 4 with 3 - the pair contains the exact rhumb back end)
      /\ r.xb[1] <= ta /\ ((r.backend >= 3 /\ r.fq < 0 /\ r.eq < 10000000) \/ r.xb[2] <= tp)
      /\ r.pl[1] = 1 /\ r.pl[2] <= tp
